@@ -979,6 +979,23 @@ func (e *Env) evalCall(c *ast.CallExpr) (Val, error) {
 			return Val{}, err
 		}
 		return Val{e.v.D.typeID(e.v.substT(ty)), intT}, nil
+	case "clotarg":
+		// clotarg(f, i): the type id of the i-th type argument the generic function enclosing closure f was instantiated with
+		a, err := e.eval(c.Args[0])
+		if err != nil {
+			return Val{}, err
+		}
+		idx, err := e.eval(c.Args[1])
+		if err != nil {
+			return Val{}, err
+		}
+		n, ok := isIntLit(idx.T)
+		if !ok {
+			return Val{}, fmt.Errorf("clotarg: index must be a literal")
+		}
+		cf := fmt.Sprintf("zz_clotarg_%d", n)
+		e.v.D.declFun(cf, []string{"Fn"}, "Int")
+		return Val{mk("Int", cf, a.T), intT}, nil
 	case "dyn":
 		a, err := e.eval(c.Args[0])
 		if err != nil {
@@ -1271,7 +1288,7 @@ func (e *Env) evalCall(c *ast.CallExpr) (Val, error) {
 		if !mentionsBound(cell) {
 			e.st.assume(tAnd(tNot(mk("Bool", "(_ is zz_fld)", cell)), tNot(mk("Bool", "(_ is zz_elem)", cell)), tNot(tEq(cell, tNilP))))
 		}
-		return Val{cell, target.FreeVars[n].Type()}, nil
+		return Val{cell, e.foreignType(target, target.FreeVars[n].Type())}, nil
 	case "fromcode":
 		a, err := e.eval(c.Args[0])
 		if err != nil {
@@ -1504,6 +1521,37 @@ func (e *Env) evalCall(c *ast.CallExpr) (Val, error) {
 		}
 	}
 	return Val{}, fmt.Errorf("unknown function %s in contract", exprStr(c.Fun))
+}
+
+// foreignType: a type taken from another generic function (the type of a variable a closure of `owner` captured)
+// may mention that function's type parameters. Type parameters are identified by name in sorts, type ids and
+// substitutions, so a foreign `T` would be taken for the `T` of the function under verification. The foreign
+// parameters are marked: they get type ids of their own and no cell-type facts are stated through them.
+func (e *Env) foreignType(owner *ssa.Function, ty types.Type) types.Type {
+	if !hasTypeParam(ty) {
+		return ty
+	}
+	root := func(f *ssa.Function) *ssa.Function {
+		f = originOf(f)
+		for f != nil && f.Parent() != nil {
+			f = originOf(f.Parent())
+		}
+		return f
+	}
+	or := root(owner)
+	if e.frame != nil && e.frame.fn != nil && root(e.frame.fn) == or {
+		return ty
+	}
+	if len(e.v.subst) > 0 {
+		// a callee's contract is being applied with its type parameters substituted: nothing foreign is left
+		return ty
+	}
+	if tps := or.TypeParams(); tps != nil {
+		for i := 0; i < tps.Len(); i++ {
+			e.v.D.foreign[tps.At(i)] = true
+		}
+	}
+	return ty
 }
 
 // theMapIter returns the single range-over-map iterator of the frame under verification.
